@@ -74,11 +74,7 @@ pub fn run_c07(case: &Case) -> Outcome {
         out.skip = Some("more than 400 solutions".into());
         return out;
     }
-    let mut cfgs = vec![Config::default(r.gen())];
-    while cfgs.len() < k {
-        let seed = r.gen();
-        cfgs.push(Config { opts: OptSpec::random(&mut r, seed), br: BrSpec::random(&mut r) });
-    }
+    let cfgs = cfgs_c07(&mut r, k);
     let mut max_conf = 0;
     let mut descs = vec![];
     for (ci, cfg) in cfgs.iter().enumerate() {
@@ -441,4 +437,13 @@ pub fn cfg_c18(case: &Case, r: &mut SmallRng) -> Config {
     let seed = r.gen();
     // restarts and backjumps: random options half of the time
     Config { opts: if r.gen_bool(0.5) { OptSpec::default_with_seed(seed) } else { OptSpec::random(r, seed) }, br }
+}
+
+pub fn cfgs_c07(r: &mut SmallRng, k: usize) -> Vec<Config> {
+    let mut cfgs = vec![Config::default(r.gen())];
+    while cfgs.len() < k {
+        let seed = r.gen();
+        cfgs.push(Config { opts: OptSpec::random(r, seed), br: BrSpec::random(r) });
+    }
+    cfgs
 }
